@@ -369,7 +369,7 @@ known("KF-C15-02", "C15", FS, "decode", r"fields-set-differ", r"bitmap(8|16):cas
 known("KF-C15-04", "C15", FS, "decode", r"verdict", r"bitmap(8|16):[a-z()-]+:full-escaped:stream:go-error",
       'Decoder fed 5-byte chunks fails on {"\\u0062\\u0062":1} with "invalid character u as escaped char"', "internal/decoder/struct.go decodeKeyCharByUnicodeRuneStream: refill inside a \\u escape of a key (see C09)",
       "other stream errors on fully escaped keys", "see C09")
-known("KF-C15-05", "C15", FS, "decode-embedded", r"(verdict|fields-set-differ)", r"(EmbVal|EmbDeep|EmbPtr|EmbConflict|EmbL3|EmbL3Ptr|EmbShadow|EmbDepthWins|EmbTaggedWins|Tags|EmbCase|EmbTagged|EmbPtrCase|EmbValCase|EmbPtrColl|EmbValColl|EmbValPtrColl|EmbTwoPtrColl):casefold-ascii(\(ambiguous\))?",
+known("KF-C15-05", "C15", FS, "decode-embedded", r"(verdict|fields-set-differ)", r"(EmbVal|EmbDeep|EmbPtr|EmbConflict|EmbL3|EmbL3Ptr|EmbShadow|EmbDepthWins|EmbTaggedWins|Tags|EmbCase|EmbTagged|EmbPtrCase|EmbValCase|EmbPtrColl|EmbValColl|EmbValPtrColl|EmbTwoPtrColl|EmbHidVal|EmbHidPtr|EmbHidDeep):casefold-ascii(\(ambiguous\))?",
       '{"B":7} into EmbVal (field b promoted from EmbInner) is ignored; encoding/json reports a type error', "internal/decoder/compile.go: promoted fields of embedded structs are registered under their exact name only",
       "other case-insensitive misses on promoted fields", "field registration for anonymous structs")
 known("KF-C15-06", "C15", FS, "decode-embedded", r"(verdict|fields-set-differ)", r"(EmbL3|EmbL3Ptr):exact",
